@@ -78,6 +78,13 @@ def queries(tier):
         if "N(0)" in q.defs.get("SKEL", "") or "N(2)" in q.defs.get("SKEL", ""):
             q.group = "~" + q.group + "#c11"
             qs.append(q)
+    # a connection that is refused or dies (wrong protocol, surplus peer, failed handshake) is torn down while the good peer's message is parked unread:
+    # the good connection must not be disturbed (PAIR: second attach refused with a message waiting)
+    for q in C08.queries(tier):
+        sk = q.defs.get("SKEL", "")
+        if "W(0,1) A(1)" in sk or "A(1) W(0,1)" in sk:
+            q.group = "~" + q.group + "#c11"
+            qs.append(q)
     qs += ws_upgrade_queries(tier)
     seen = set()
     out = []
